@@ -36,8 +36,8 @@ def main(argv=None):
     ctx = Ctx(prop, a.tier, seed)
     for t in registry.COMMON_TRUSTED:
         ctx.trust(t)
-    t1 = _load("contracts.%s" % prop)
-    t2 = _load("bounded.%s" % prop)
+    t1 = None if a.t2_only else _load("contracts.%s" % prop)
+    t2 = None if a.t1_only else _load("bounded.%s" % prop)
     if a.replay:
         with open(a.replay) as f:
             rec = json.load(f)
